@@ -176,4 +176,32 @@ example : let s := run genTable (init false (some (.e, .outgoing), some (.e, .in
 example : let s := run genTable (init true (none, none)) (crossSchedule ++ [.reap .Pc, .reap .Qd])
     final s = true ∧ s.cached .P = none ∧ s.cached .Q = none := by decide
 
+/-! ### the direction of the re-loaded entry (`rcdir`) is really threaded through the model
+
+`decide`'s last argument is the direction of the entry that the re-load finds. The table generated from the
+current source does not read it. A table that
+honours the re-loaded entry only when it is an INCOMING one in the branch 'other: fresh outgoing, us: new
+incoming' (and is the generated one everywhere else) loses the property: after `c` has been stored by both
+peers, P's incoming end of `d` overwrites `c` (an outgoing entry) with `d`, Q's outgoing end closes `d` and keeps
+`c` — the peers cache different connections, and after the reap Q caches the new connection `c` alone. -/
+
+/-- the generated table, except that the incoming re-check only honours an incoming entry -/
+def incomingOnlyTable : Table :=
+  ⟨Gen.C41.snapshot, fun ps pd cached cdir dir rc rcdir =>
+    match ps, pd, cached, dir, rc, rcdir with
+    | .fresh, .outgoing, false, .incoming, true, .outgoing => Gen.C41.decide ps pd cached cdir dir false rcdir
+    | _, _, _, _, _, _ => Gen.C41.decide ps pd cached cdir dir rc rcdir⟩
+
+def overwriteSchedule : List Step :=
+  [.snap .Pc, .snap .Qc, .snap .Qd, .snap .Pd, .dec .Pc, .dec .Qc, .dec .Qd, .dec .Pd]
+
+example : let s := run incomingOnlyTable (init true (none, none)) overwriteSchedule
+    s.cached .P = some .d ∧ s.cached .Q = some .c ∧ noSplitBrain s = false := by decide
+example : let s := run incomingOnlyTable (init true (none, none)) (overwriteSchedule ++ [.reap .Pd])
+    final s = true ∧ s.cached .P = none ∧ s.cached .Q = some .c ∧ s.closed .c = false ∧
+    newOnlyIfPeer s = false := by decide
+/-- the same schedule over the generated table converges on `c` -/
+example : let s := run genTable (init true (none, none)) overwriteSchedule
+    final s = true ∧ s.cached .P = some .c ∧ s.cached .Q = some .c ∧ good s = true := by decide
+
 end Specter.C41
